@@ -242,7 +242,7 @@ theorem twoLevel_w_sub (β δ : ℝ) (hβ : 0 < β) :
   rw [← sub_div]
 
 /-- `tanh (x/2) ≤ x/2` in exponential form, for `0 ≤ x ≤ 1` -/
-theorem one_sub_exp_neg_le (x : ℝ) (h0 : 0 ≤ x) (h1 : x ≤ 1) :
+theorem tanh_half_le (x : ℝ) (h0 : 0 ≤ x) (h1 : x ≤ 1) :
     (1 - Real.exp (-x)) / (1 + Real.exp (-x)) ≤ x / 2 := by
   have hpos : 0 < Real.exp (-x) := Real.exp_pos _
   have hup := Real.exp_bound' h0 h1 (n := 3) (by norm_num)
@@ -384,7 +384,7 @@ theorem residue_filter_counterexample :
   have hE1 : d.E 1 = 2 / 10 ^ 8 := rfl
   have hup : d.w 0 - d.w 1 ≤ 1 / 10 ^ 8 := by
     rw [hd, twoLevel_w_sub]
-    refine (one_sub_exp_neg_le _ hx0 hx1).trans (le_of_eq ?_)
+    refine (tanh_half_le _ hx0 hx1).trans (le_of_eq ?_)
     norm_num
   have hlow : 1 / 5 * (2 / 10 ^ 8) ≤ d.w 0 - d.w 1 := by
     rw [hd, twoLevel_w_sub]
